@@ -580,7 +580,7 @@ pub fn c09(ctx: &mut Ctx) {
 // C13
 // ---------------------------------------------------------------------------------------------
 
-fn coloured(rng: &mut Rng, hyphen_splitter: bool) -> (String, String) {
+fn coloured(rng: &mut Rng, hyphen_splitter: bool) -> (String, String, Vec<(Vec<(String, char)>, String)>) {
     // visible tokens, then sequences attached to non-space characters
     let n = 1 + rng.below(7);
     let mut vis: Vec<char> = Vec::new();
@@ -601,19 +601,40 @@ fn coloured(rng: &mut Rng, hyphen_splitter: bool) -> (String, String) {
         }
     };
     let touches_hyphen = |a: Option<&char>, b: Option<&char>| hyphen_splitter && (a == Some(&'-') || b == Some(&'-'));
+    // the same text as paragraphs of blocks (run of sequences, visible char) + trailing run: the
+    // form in which the Lean theorems of C13 take it
+    let mut paras: Vec<(Vec<(String, char)>, String)> = Vec::new();
+    let mut blocks: Vec<(String, char)> = Vec::new();
+    let mut pend = String::new();
     for i in 0..=vis.len() {
         let prev = if i > 0 { vis.get(i - 1) } else { None };
         let next = vis.get(i);
         if (is_ok(prev) || is_ok(next)) && !touches_hyphen(prev, next) && rng.chance(1, 4) {
             for _ in 0..1 + rng.below(2) {
-                out.push_str(if rng.chance(3, 4) { *rng.pick(seqs_sgr) } else { *rng.pick(seqs_osc) });
+                let sq = if rng.chance(3, 4) { *rng.pick(seqs_sgr) } else { *rng.pick(seqs_osc) };
+                out.push_str(sq);
+                pend.push_str(sq);
             }
         }
         if let Some(c) = next {
             out.push(*c);
+            if *c == '\n' {
+                paras.push((std::mem::take(&mut blocks), std::mem::take(&mut pend)));
+            } else {
+                blocks.push((std::mem::take(&mut pend), *c));
+            }
         }
     }
-    (out, vis.into_iter().collect())
+    paras.push((blocks, pend));
+    (out, vis.into_iter().collect(), paras)
+}
+
+fn enc_paras(paras: &[(Vec<(String, char)>, String)]) -> String {
+    paras
+        .iter()
+        .map(|(bs, tl)| format!("{}~{}", bs.iter().map(|(p, c)| format!("{}/{}", crate::proto::enc_text(p), *c as u32)).collect::<Vec<_>>().join(","), crate::proto::enc_text(tl)))
+        .collect::<Vec<_>>()
+        .join(";")
 }
 
 fn sequences_of(t: &str) -> Vec<String> {
@@ -644,9 +665,14 @@ pub fn c13(ctx: &mut Ctx) {
         o.si.clear();
         o.crlf = false;
         o.pen = DEFAULT_PEN;
-        let (col, vis) = coloured(&mut ctx.rng, o.splitter == "h");
+        let (col, vis, paras) = coloured(&mut ctx.rng, o.splitter == "h");
         let (op, r) = op_wrap(&col, &o);
         ctx.case(op, call("wrap", &col, &o));
+        // the generated text lies in the class of the Lean theorems (blocks, valid, attached)
+        ctx.case(
+            Op { req: format!("c13blocks|{}", enc_paras(&paras)), real: format!("valid=1;attached=1;nolf=1;col={};vis={}", crate::proto::enc_text(&col), crate::proto::enc_text(&vis)) },
+            format!("blocks of {}", show(&col)),
+        );
         let (rv, _) = real_wrap(&vis, &o);
         let (Some(lc), Some(lv)) = (strs(&r), strs(&rv)) else {
             ctx.fail("returns normally", call("wrap", &col, &o), None);
